@@ -47,7 +47,7 @@ structure RdStep (S : Segmenter) (U : UData) (cfg : EdCfg) (J : Ed → Prop) : P
   refresh : KeepsJ J (refreshLine S U cfg)
   next : ∀ fuel, KeepsJ J (nextCmd S U cfg fuel false false)
   reset : ∀ s, J s → J { s with ring := s.ring.reset }
-  pre : ∀ fuel cmd, KeepsJ J (preCmds S U cfg fuel cmd)
+  pre : ∀ fuel cmd s, RdInv cfg s → J s → wp (preCmds S U cfg fuel cmd) (fun _ s' => J s') (fun _ _ => True) s
   susp : ∀ s, J s → J { s with suspends := s.suspends + 1 }
   nextChar : KeepsJ J nextChar
   insert : ∀ c, KeepsJ J (editInsert S U cfg c 1)
@@ -511,7 +511,7 @@ theorem safe_mainLoop {J : Ed → Prop} (H : RdHyp S U cfg) (K : RdStep S U cfg 
       intro s2 h2 hi2 hj2 hp2
       rw [wp_bind]
       refine rsafe_rijx cfg (rt_preCmds S U cfg H.binds fuel cmd0 hc0) hi2 (safe_preCmds S U cfg H fuel cmd0 s2 h2)
-        (K.pre fuel cmd0 s2 hj2) (pop_preCmds S U cfg fuel cmd0 hp2) ?_
+        (K.pre fuel cmd0 s2 h2 hj2) (pop_preCmds S U cfg fuel cmd0 hp2) ?_
       intro r s3 h3 hi3 hj3 hr hp3
       cases r with
       | none => exact ih s3 h3 hi3 hj3 hp3
